@@ -307,6 +307,46 @@ func main() {
 	tLoad := time.Since(t0)
 
 	results := make([]JobResult, len(spec.Jobs))
+	bmcResults := make([]BMCResult, len(spec.BMC))
+	var resMu sync.Mutex
+	writeOut := func() {
+		out := map[string]any{"load_s": tLoad.Seconds(), "wall_s": time.Since(t0).Seconds(), "results": results, "intmode": IntMode, "bmc_results": bmcResults}
+		if *hashes {
+			seen := map[string]bool{}
+			for _, r := range results {
+				for f := range r.Functions {
+					seen[f] = true
+				}
+			}
+			out["source_hashes"] = sourceHashes(l, seen)
+		}
+		b, _ := json.MarshalIndent(out, "", " ")
+		if *outFile != "" {
+			os.WriteFile(*outFile, b, 0o644)
+		} else {
+			fmt.Println(string(b))
+		}
+	}
+	if !runDeadline.IsZero() {
+		// watchdog: a job that does not notice the deadline (stuck inside one long merge or solver call) must not cost
+		// the results of the jobs that did finish
+		go func() {
+			time.Sleep(time.Until(runDeadline) + 90*time.Second)
+			resMu.Lock()
+			for i := range results {
+				if results[i].Status == "" {
+					results[i] = JobResult{Job: spec.Jobs[i], Status: "timeout", Error: "the run reached its wall-clock deadline (the job did not stop in time)"}
+				}
+			}
+			for i := range bmcResults {
+				if bmcResults[i].Status == "" {
+					bmcResults[i] = BMCResult{Job: spec.BMC[i], Status: "timeout", Error: "the run reached its wall-clock deadline"}
+				}
+			}
+			writeOut()
+			os.Exit(0)
+		}()
+	}
 	var wg sync.WaitGroup
 	ch := make(chan int)
 	for w := 0; w < spec.Workers; w++ {
@@ -314,7 +354,10 @@ func main() {
 		go func() {
 			defer wg.Done()
 			for i := range ch {
-				results[i] = runJob(l, &spec, spec.Jobs[i])
+				r := runJob(l, &spec, spec.Jobs[i])
+				resMu.Lock()
+				results[i] = r
+				resMu.Unlock()
 				if os.Getenv("VERIF_PROGRESS") != "" {
 					r := results[i]
 					fmt.Fprintf(os.Stderr, "job %s: %s %.1fs paths=%d obligations=%d failures=%d %s\n", r.Job.Name, r.Status, r.RunS, r.Paths, r.Obligations, len(r.Failures), r.Error)
@@ -328,7 +371,6 @@ func main() {
 	close(ch)
 	wg.Wait()
 
-	bmcResults := make([]BMCResult, len(spec.BMC))
 	if len(spec.BMC) > 0 {
 		var bwg sync.WaitGroup
 		sem := make(chan struct{}, spec.Workers)
@@ -343,9 +385,15 @@ func main() {
 					tmo = 600000
 				}
 				if spec.BMC[i].Fused {
-					bmcResults[i] = runBMCFused(l, spec.BMC[i], tmo)
+					r := runBMCFused(l, spec.BMC[i], tmo)
+					resMu.Lock()
+					bmcResults[i] = r
+					resMu.Unlock()
 				} else {
-					bmcResults[i] = runBMC(l, spec.BMC[i], tmo)
+					r := runBMC(l, spec.BMC[i], tmo)
+					resMu.Lock()
+					bmcResults[i] = r
+					resMu.Unlock()
 				}
 				if os.Getenv("VERIF_PROGRESS") != "" {
 					fmt.Fprintf(os.Stderr, "bmc %s: %s %v\n", spec.BMC[i].Name, bmcResults[i].Status, bmcResults[i].Queries)
@@ -354,25 +402,11 @@ func main() {
 		}
 		bwg.Wait()
 	}
-	out := map[string]any{"load_s": tLoad.Seconds(), "wall_s": time.Since(t0).Seconds(), "results": results, "intmode": IntMode, "bmc_results": bmcResults}
-	if *hashes {
-		seen := map[string]bool{}
-		for _, r := range results {
-			for f := range r.Functions {
-				seen[f] = true
-			}
-		}
-		out["source_hashes"] = sourceHashes(l, seen)
-	}
 	if qsitesOn {
 		fmt.Fprintln(os.Stderr, "query sites:", qsites)
 	}
-	b, _ := json.MarshalIndent(out, "", " ")
-	if *outFile != "" {
-		os.WriteFile(*outFile, b, 0o644)
-	} else {
-		fmt.Println(string(b))
-	}
+	resMu.Lock()
+	writeOut()
 }
 
 // sourceHashes returns sha1 of the source text of every executed function of pint's own packages.
